@@ -166,6 +166,10 @@ INVALID = [
     ("case_conflict_method", _append("service ZqSv { void foo() void Foo() }"), r"Methods Foo and foo conflict\."),
     ("dup_scope", _append("struct ZqE {}\nscope ZqSc { x: ZqE }\nscope ZqSc { y: ZqE }"), r"Duplicate scope name ZqSc$"),
     ("case_conflict_scope", _append("struct ZqE {}\nscope ZqSc { x: ZqE }\nscope zqSc { y: ZqE }"), r"Scopes zqSc and ZqSc conflict\."),
+    ("dup_prefix_variable", _append("struct ZqE {}\nscope ZqSc prefix a.{zone}.b.{zone} { x: ZqE }"),
+     r"Duplicate prefix variable zone in scope ZqSc$"),
+    ("dup_prefix_variable_after_valid", _append("struct ZqE {}\nscope ZqSc prefix p.{uu}.{vv}.{uu} { x: NoSuchTypeZq }"),
+     r"Duplicate prefix variable uu in scope ZqSc$"),
     ("dup_op", _append("struct ZqE {}\nscope ZqSc { x: ZqE, x: ZqE }"), r"Duplicate operation name x$"),
     ("case_conflict_op", _append("struct ZqE {}\nscope ZqSc { xy: ZqE, Xy: ZqE }"), r"Operations Xy and xy conflict\."),
     ("wildcard_vendor", _append('namespace * zqfoo (vendor="x")'), r'"vendor" annotation not compatible with \* namespace$'),
